@@ -244,6 +244,30 @@ func runeSubstitutions(s string) []string {
 		for _, r := range asciiFoldRunes {
 			out = append(out, s[:pos]+string(r)+s[pos+1:])
 		}
+		for _, r := range runeHypotheses(s[pos]) {
+			out = append(out, s[:pos]+string(r)+s[pos+1:])
+		}
+	}
+	return out
+}
+
+// runeHypotheses: the multi-byte characters that a decoder walking the string rune by rune (range
+// over a string) instead of byte by byte may take for the ASCII character ch: runes whose low byte
+// is ch (truncation by byte(r): U+0100+ch ... U+0800+ch, U+10000+ch, U+1F600-page), whose low seven
+// bits are ch (U+0080+ch), and the fullwidth form (U+FEE0+ch).  Each is valid UTF-8, so none of its
+// bytes is seen as U+FFFD.
+func runeHypotheses(ch byte) []rune {
+	if ch >= 0x80 {
+		return nil
+	}
+	c := rune(ch)
+	out := []rune{0x80 + c, 0x10000 + c, 0x1f600 + c, 0xe0000 + c}
+	for k := rune(1); k <= 8; k++ {
+		out = append(out, k<<8+c)
+	}
+	out = append(out, 0x2000+c, 0xff00+c)
+	if c > 0x20 && c < 0x7f {
+		out = append(out, 0xfee0+c)
 	}
 	return out
 }
